@@ -313,9 +313,11 @@ def _river(run, prog):
     # the single-output converter: the one helper method of the class that __call__ applies to the model output
     sc = prog.summarise(cls, "__call__")
     helpers = []
+    pf_call = "self." + _wrapper_fields(prog, prog.find_class("Wrapper"))[0]
     for ev, ctx in walk(sc.events, structural=True):
-        if isinstance(ev, ir.Inlined) and ev.cls is not None and ev.fn.name in cls.methods and not ctx.inl and \
-                ev.fn.name not in helpers:
+        # the helper that is handed what the model returned (wherever in __call__'s own helpers that happens)
+        if isinstance(ev, ir.Inlined) and ev.cls is not None and ev.fn.name in cls.methods and ev.fn.name not in helpers and \
+                any(isinstance(v, tuple) and v and v[0] == "res" and v[2] == pf_call for v in ev.params.values()):
             helpers.append(ev.fn.name)
     run.need(len(helpers) == 1, f"RiverWrapper.__call__ does not convert outputs through one helper method: {helpers}")
     hname = helpers[0]
@@ -361,6 +363,19 @@ def _river(run, prog):
             run.check(ok, "RIVER", "one-hot", f"{e.path}:{ev.line}", fq, "one-hot construction",
                       "a string label must be added to the seen labels before the one-hot dict over the seen labels is built "
                       "and its own entry set to 1", "seen.add(label); {l: 0 for l in seen}; out[label] = 1")
+            kinds.add("onehot")
+        elif handler and "ValueError" in handler[0].exc and v[0] == "new" and v[2] == "dict" and len(v[3]) == 2 and \
+                v[3][0][0] == "spread" and v[3][0][1][0] == "comp" and v[3][0][1][1] == "dict" and v[3][0][1][3] == seen and \
+                v[3][0][1][4] == ("elem", v[3][0][1][2]) and not v[3][0][1][6] and const_value(v[3][0][1][5]) == 0:
+            # the display spelling {**{l: 0 for l in seen}, label: 1}: built where it is returned
+            idx = {id(x): i for i, (x, _) in enumerate(walk(e.events))}
+            adds = [x for x, c in walk(e.events) if isinstance(x, ir.Call) and x.callee == f"self.{slf}" and
+                    x.method == "add" and x.args == (y,)]
+            hot = v[3][1][0] == "kv" and v[3][1][1] == y and const_value(v[3][1][2]) == 1
+            ok = len(adds) == 1 and hot and idx[id(adds[0])] < idx[id(ev)]
+            run.check(ok, "RIVER", "one-hot", f"{e.path}:{ev.line}", fq, "one-hot construction",
+                      "a string label must be added to the seen labels before the one-hot dict over the seen labels is built "
+                      "and its own entry set to 1", "seen.add(label); {**{l: 0 for l in seen}, label: 1}")
             kinds.add("onehot")
     run.check(kinds == {"dict", "float", "onehot"}, "RIVER", "forms", f"{e.path}:{e.fn.lineno}", fq, f"forms {sorted(kinds)}",
               f"the output converter must pass dicts through, wrap floats under the default label and one-hot strings; found "
